@@ -345,6 +345,11 @@ def run_case(ctx, spec, nspec, style, seed, only=None):
                               else 'block')
             except (ValueError, RecursionError):
                 t6 = None
+            if t6 is not None and D.compose_tree(load.loader, t6) != tree:
+                # the renderer respelled something (a null key written ''
+                # in one style and ~ in another: text a savorizer may read)
+                ctx.count('discarded_alias_spelling_changes_tree')
+                t6 = None
             if t6 is not None:
                 _, other, _ = load_outcome(spec, t6)
                 if other[0] != 'nofn':
